@@ -413,6 +413,36 @@ pub fn table_event(
     lines: &mut Vec<Value>,
     extra: Value,
 ) -> Option<VTable> {
+    table_event_fs(u, run, block, policy, number, lines, extra).map(|x| x.0)
+}
+
+/// Open table `number` of `fs` with ANOTHER filter policy than it was written with (the documented
+/// way to change the filter format: the reader finds no filter block for its policy name and has
+/// to work without one).
+pub fn reopen_with_policy(
+    fs: &SimFs,
+    block: usize,
+    policy: Arc<dyn FilterPolicy>,
+    number: u64,
+) -> Result<VTable, String> {
+    let opts = table_options(fs, block, Some(policy));
+    match std::panic::catch_unwind(std::panic::AssertUnwindSafe(|| {
+        VTable::open(&opts, number).map_err(|e| format!("open: {}", e))
+    })) {
+        Ok(x) => x,
+        Err(p) => Err(panic_text(p)),
+    }
+}
+
+pub fn table_event_fs(
+    u: &Universe,
+    run: &[Ent],
+    block: usize,
+    policy: Option<Arc<dyn FilterPolicy>>,
+    number: u64,
+    lines: &mut Vec<Value>,
+    extra: Value,
+) -> Option<(VTable, SimFs)> {
     let fs = SimFs::new("/t");
     let opts = table_options(&fs, block, policy);
     let raw: Vec<Raw> = run
@@ -432,7 +462,7 @@ pub fn table_event(
         }
     }
     lines.push(ev);
-    r.ok()
+    r.ok().map(|t| (t, fs))
 }
 
 // ---------------------------------------------------------------------------------------------
